@@ -78,6 +78,7 @@ package bcl
 //@   assert [C15,C05] binds_only_after_successful_interpretation: at Bind#1: err == nil
 //@   assert [C11] reads_the_file_through_the_pipeline_once: at InterpretFile#1: true
 //@   ensures [C11] input_left_to_the_reader: g.closes == 0 && g.reads == 0
+//@   ensures [C11] the_input_goes_through_the_pipeline_whatever_the_target: g.ev_go == 2 && g.ev_recv_rerr == 1 && g.ev_recv_perr == 1
 //
 //@ func InterpretFile
 //@   requires input_given: f != nil
@@ -86,3 +87,4 @@ package bcl
 //@   assert [C11,C03] executes_only_an_error_free_program: at Execute#1: err == nil
 //@   assert [C11] parses_the_file_through_the_pipeline_once: at ParseFile#1: true
 //@   ensures [C11] input_left_to_the_reader: g.closes == 0 && g.reads == 0
+//@   ensures [C11] the_input_goes_through_the_pipeline: g.ev_go == 2 && g.ev_recv_rerr == 1 && g.ev_recv_perr == 1
